@@ -41,6 +41,7 @@ Section Stable.
   Variable U : units R.
   Variable K : oracles R.
   Variable minpos : R.
+  Variable rz : bool.     (* is the idler waist position exported rounded? (the theorem holds either way) *)
 
   (* the class of setups for which the statement holds: angles not within 0.5e-4 degrees of the wrap-around of their
      range (there the exported 360.0000 / -180.0000 re-imports as 0 / +180), waist positions stored as non-positive
@@ -77,15 +78,14 @@ Section Stable.
     rewrite !mul_div_cancel by lra. rewrite !round4_idempotent. reflexivity.
   Qed.
 
-  Theorem stable s : reimportable s ->
-    exists s2, try_as_spdc_steps R_ops U K minpos (as_config R_ops U s) = Ok (s2, []) /\
-               as_config R_ops U s2 = as_config R_ops U s.
+  Theorem stable_spec s : reimportable s ->
+    exists s2, try_as_spdc_steps R_ops U K minpos (as_config_spec rz U s) = Ok (s2, []) /\
+               as_config_spec rz U s2 = as_config_spec rz U s.
   Proof.
     intros (Hmw & Hv & Hsig & Hidl & Hzs & Hzi & Hpp).
-    rewrite as_config_matches_spec.
     pose proof deg_pos as Hdeg. pose proof nano_pos as Hnano. pose proof micro_pos as Hmicro. pose proof pico_pos as Hpico.
     unfold Config.try_as_spdc_steps, signal_step.
-    set (c1 := as_config_spec U s).
+    set (c1 := as_config_spec rz U s).
     destruct (beam_reimport (signal_polarization (cs_pm (cfg_cs0 R_ops c1))) (s_signal s) (round4 (s_zs s / micro)) (cfg_cs0 R_ops c1) Hsig)
       as (sig2 & Hsig2 & Hsp & Hsphi & Hsth & Hswl & Hsw).
     change (c_signal c1) with (beam_spec (s_signal s) (round4 (s_zs s / micro))).
@@ -122,13 +122,13 @@ Section Stable.
             rewrite H0. replace (- (0 * micro) / micro) with 0 by (field; lra). rewrite round4_0. reflexivity. }
     destruct Hpol as (pp2 & Hpp2 & Hppc). rewrite Hpp2. cbn [bind fst snd].
     unfold theta_step. subst c1. cbn [as_config_spec c_crystal cc_theta_deg is_auto bind].
-    set (c1 := as_config_spec U s) in *.
-    unfold idler_step. change (c_idler c1) with (Param (beam_spec (s_idler s) (s_zi s / micro))). cbv iota.
-    destruct (beam_reimport (idler_polarization (cs_pm (cfg_cs0 R_ops c1))) (s_idler s) (s_zi s / micro) (cfg_cs0 R_ops c1) Hidl)
+    set (c1 := as_config_spec rz U s) in *.
+    set (wi := if rz then round4 (s_zi s / micro) else s_zi s / micro).
+    unfold idler_step. change (c_idler c1) with (Param (beam_spec (s_idler s) wi)). cbv iota.
+    destruct (beam_reimport (idler_polarization (cs_pm (cfg_cs0 R_ops c1))) (s_idler s) wi (cfg_cs0 R_ops c1) Hidl)
       as (idl2 & Hidl2 & Hip & Hiphi & Hith & Hiwl & Hiw).
     rewrite Hidl2. cbn [bind fst snd].
     eexists. split; [reflexivity |].
-    rewrite as_config_matches_spec.
     apply cfg_ext; unfold finish_spdc; cbn [as_config_spec c_crystal c_pump c_signal c_idler c_pp c_deff
       s_crystal s_signal s_idler s_pump s_bandwidth s_power s_threshold s_pp s_zs s_zi s_deff].
     - (* crystal *)
@@ -154,10 +154,12 @@ Section Stable.
     - (* idler *)
       subst c1. unfold focus_step, explicit_focus, idler_focus_cfg.
       cbn [as_config_spec c_idler beam_spec bc_waist_pos_um fst nneg nabs nmul R_ops]. rewrite u_micro_R.
-      assert (Hz : s_zi s / micro <= 0).
-      { apply div_nonpos; assumption. }
+      assert (Hz0 : s_zi s / micro <= 0) by (apply div_nonpos; assumption).
+      fold wi.
+      assert (Hz : wi <= 0) by (unfold wi; destruct rz; [apply round4_nonpos |]; assumption).
       rewrite (Rabs_left1 _ Hz), Ropp_involutive, mul_div_cancel by lra.
-      f_equal. apply beam_spec_reimport; assumption.
+      assert (Hwi : (if rz then round4 wi else wi) = wi) by (unfold wi; destruct rz; [apply round4_idempotent | reflexivity]).
+      rewrite Hwi. f_equal. apply beam_spec_reimport; assumption.
     - (* poling *)
       rewrite <- Hppc. unfold poling_as_config. destruct pp2; [reflexivity |].
       rewrite sigfigs_R, u_micro_R, apod_as_config_spec. reflexivity.
@@ -166,6 +168,14 @@ Section Stable.
       replace (round4 (s_deff s / (pico / u_volt U)) * pico / u_volt U / (pico / u_volt U))
         with (round4 (s_deff s / (pico / u_volt U))) by (field; split; [assumption | lra]).
       apply round4_idempotent.
+  Qed.
+
+  Theorem stable s : rz = export_rounds_idler_waist_position -> reimportable s ->
+    exists s2, try_as_spdc_steps R_ops U K minpos (as_config R_ops U s) = Ok (s2, []) /\
+               as_config R_ops U s2 = as_config R_ops U s.
+  Proof.
+    intros Hrz Hre. destruct (stable_spec s Hre) as (s2 & H1 & H2). exists s2.
+    rewrite !as_config_matches_spec, <- Hrz. auto.
   Qed.
 End Stable.
 
